@@ -60,3 +60,8 @@ UNIT = {
     ],
     'obligations': [ob(*p) for p in POINTS],
 }
+
+# C06 is carried by the boundary points only (the others decide C19)
+for _o in UNIT['obligations']:
+    if not any(k in _o['id'] for k in ('so_min', 'so_max', 'csro_0_min', 'csr_max', 'so_zero')):
+        _o['props'] = [p for p in _o['props'] if p != 'C06']
